@@ -33,29 +33,50 @@ def oidLocalKeyId : Bytes := [0x2a, 0x86, 0x48, 0x86, 0xf7, 0x0d, 0x01, 0x09, 0x
 def oidRsa : Bytes := [0x2a, 0x86, 0x48, 0x86, 0xf7, 0x0d, 0x01, 0x01, 0x01]
 def oidEcPublicKey : Bytes := [0x2a, 0x86, 0x48, 0xce, 0x3d, 0x02, 0x01]
 
-/-- pbDecrypt for an AlgorithmIdentifier { oid, SEQUENCE { salt OCTET STRING, iterations INTEGER } } -/
-def pbDecryptFull (alg : Bytes) (data password : Bytes) : Option Bytes := do
-  let ac ← children alg
-  let (oid, params) ← match ac with
-    | [(0x06, oid), (0x30, params)] => some (oid, params)
-    | _ => none
-  let pc ← children params
+/-- the error classes a caller can tell apart -/
+inductive RErr where
+  | password       -- ErrIncorrectPassword
+  | notImpl        -- a NotImplementedError
+  | decryption     -- ErrDecryption
+  | other          -- any other error
+deriving DecidableEq, Repr
+
+abbrev R := Except RErr
+
+def opt {α : Type} (o : Option α) : R α :=
+  match o with
+  | some a => .ok a
+  | none => .error .other
+
+/-- pbDecrypt for an AlgorithmIdentifier { oid, SEQUENCE { salt OCTET STRING, iterations INTEGER } }:
+    unknown algorithm → NotImplementedError (decided before the parameters are read), iteration count
+    outside 0..2^20 → NotImplementedError, bad padding → ErrDecryption -/
+def pbDecryptFull (alg : Bytes) (data password : Bytes) : R Bytes := do
+  let ac ← opt (children alg)
+  let (oid, rest) ← match ac with
+    | (0x06, oid) :: rest => pure (oid, rest)
+    | _ => .error .other
+  if oid ≠ oidPbe3DES ∧ oid ≠ oidPbeRC2_40 then .error .notImpl
+  let params ← match rest with
+    | [(0x30, params)] => pure params
+    | _ => .error .other
+  let pc ← opt (children params)
   let (salt, iter) ← match pc with
-    | [(0x04, salt), (0x02, it)] => some (salt, derInt it)
-    | _ => none
-  if iter < 0 ∨ iter > maxIterations then none
+    | [(0x04, salt), (0x02, it)] => pure (salt, derInt it)
+    | _ => .error .other
+  if iter < 0 ∨ iter > maxIterations then .error .notImpl
   let iv := pbkdf salt password iter.toNat 2 8
   let dec ← (if oid = oidPbe3DES then
       let k := C25.Des.expandKey3 (pbkdf salt password iter.toNat 1 24)
-      some (C25.Des.decryptBlock3 k)
-    else if oid = oidPbeRC2_40 then
+      pure (C25.Des.decryptBlock3 k)
+    else
       match C12.Rc2.expandKey (pbkdf salt password iter.toNat 1 5) 40 with
-      | .ok k => some (C12.Rc2.decrypt k)
-      | .panic => none
-    else none)
+      | .ok k => pure (C12.Rc2.decrypt k)
+      | .panic => .error .other)
   match pbDecryptTail 8 (cbcDecrypt dec iv) data with
-  | .ok p => some p
-  | _ => none
+  | .ok p => pure p
+  | .errPadding => .error .decryption
+  | _ => .error .other
 
 /-! ## DER writing (for Go's re-marshalled EC key) -/
 
@@ -68,29 +89,46 @@ def der (tag : UInt8) (content : Bytes) : Bytes := tag :: derLen content.length 
 
 /-! ## bags -/
 
+def oidCspName : Bytes := [0x2b, 0x06, 0x01, 0x04, 0x01, 0x82, 0x37, 0x11, 0x01]
+def oidEd25519 : Bytes := [0x2b, 0x65, 0x70]
+
+/-- a SafeBag as getSafeContents leaves it: not yet decoded -/
+structure RawBag where
+  oid : Bytes
+  value : Bytes                -- contents of the [0] wrapper
+  attrs : Option Bytes         -- contents of the attribute SET
+
 structure BagOut where
-  type : String            -- "CERTIFICATE" | "PRIVATE-KEY"
-  bytes : Bytes            -- what ToPEM puts into the block / Decode returns (re-marshalled)
+  type : String                -- "CERTIFICATE" | "PRIVATE-KEY"
+  bytes : Bytes                -- what ToPEM puts into the block / Decode returns (re-marshalled)
+  pemOk : Bool                 -- false: a key type ToPEM cannot write (neither RSA nor ECDSA)
   friendly : Option (List Nat)
   localKeyId : Option Bytes
+  csp : Option (List Nat)
 
-/-- attributes: SET OF SEQUENCE { OID, SET { value } } -/
-def bagAttrs (attrs : Bytes) : Option (Option (List Nat) × Option Bytes) := do
+/-- ToPEM's headers: friendlyName and Microsoft CSP Name (BMPString), localKeyId; unknown attributes skipped -/
+def bagAttrs (attrs : Bytes) : Option (Option (List Nat) × Option Bytes × Option (List Nat)) := do
   let as ← children attrs
-  as.foldlM (fun (acc : Option (List Nat) × Option Bytes) (a : UInt8 × Bytes) => do
+  as.foldlM (fun (acc : Option (List Nat) × Option Bytes × Option (List Nat)) (a : UInt8 × Bytes) => do
     let ac ← children a.2
     match ac with
     | [(0x06, oid), (0x31, vals)] =>
-      let (_, v, _) ← tlv vals
       if oid = oidFriendlyName then
+        let (_, v, _) ← tlv vals
         let rs ← decodeBMPString v
-        pure (some rs, acc.2)
-      else if oid = oidLocalKeyId then pure (acc.1, some v)
+        pure (some rs, acc.2.1, acc.2.2)
+      else if oid = oidCspName then
+        let (_, v, _) ← tlv vals
+        let rs ← decodeBMPString v
+        pure (acc.1, acc.2.1, some rs)
+      else if oid = oidLocalKeyId then
+        let (_, v, _) ← tlv vals
+        pure (acc.1, some v, acc.2.2)
       else pure acc
-    | _ => none) (none, none)
+    | _ => none) (none, none, none)
 
-/-- PKCS#8 PrivateKeyInfo → the DER Go writes for the parsed key -/
-def keyFromPkcs8 (p8 : Bytes) : Option Bytes := do
+/-- PKCS#8 PrivateKeyInfo → (the DER the harness digests for the parsed key, can ToPEM write it) -/
+def keyFromPkcs8 (p8 : Bytes) : Option (Bytes × Bool) := do
   let (t, body, rest) ← tlv p8
   if t ≠ 0x30 ∨ !rest.isEmpty then none
   let cs ← children body
@@ -99,7 +137,8 @@ def keyFromPkcs8 (p8 : Bytes) : Option Bytes := do
     let ac ← children alg
     match ac with
     | (0x06, oid) :: ps =>
-      if oid = oidRsa then some inner                      -- RSAPrivateKey (PKCS#1), canonical DER
+      if oid = oidRsa then some (inner, true)              -- RSAPrivateKey (PKCS#1), canonical DER
+      else if oid = oidEd25519 then some (p8, false)       -- Decode returns it; ToPEM refuses the key type
       else if oid = oidEcPublicKey then do
         let curve ← match ps with
           | [(0x06, c)] => some c
@@ -112,73 +151,78 @@ def keyFromPkcs8 (p8 : Bytes) : Option Bytes := do
           | _ => none
         let pub ← (others.find? (fun x => x.1 = 0xa1)).map (·.2)
         -- SEQUENCE { 1, d, [0] namedCurve, [1] publicKey }
-        some (der 0x30 (der 0x02 [1] ++ der 0x04 d ++ der 0xa0 (der 0x06 curve) ++ der 0xa1 pub))
+        some (der 0x30 (der 0x02 [1] ++ der 0x04 d ++ der 0xa0 (der 0x06 curve) ++ der 0xa1 pub), true)
       else none
     | _ => none
   | _ => none
 
-def readBag (bag : Bytes) (password : Bytes) : Option BagOut := do
+def rawBag (bag : Bytes) : Option RawBag := do
   let bc ← children bag
-  let (oid, wrapped, attrs) ← match bc with
-    | [(0x06, oid), (0xa0, w)] => some (oid, w, none)
-    | [(0x06, oid), (0xa0, w), (0x31, a)] => some (oid, w, some a)
-    | _ => none
-  let (fr, lk) ← match attrs with
-    | none => some (none, none)
-    | some a => bagAttrs a
-  if oid = oidCertBag then
-    let (_, cb, _) ← tlv wrapped
-    let cc ← children cb
+  match bc with
+  | [(0x06, oid), (0xa0, w)] => some ⟨oid, w, none⟩
+  | [(0x06, oid), (0xa0, w), (0x31, a)] => some ⟨oid, w, some a⟩
+  | _ => none
+
+/-- decodeCertBag / decodePkcs8ShroudedKeyBag on one bag. `none` in the result = a bag type the
+    package does not know (Decode skips it, ToPEM fails). Every failure inside the key bag is re-wrapped
+    by the code with errors.New, so it loses its class. -/
+def decodeBag (b : RawBag) (password : Bytes) : R (Option BagOut) := do
+  if b.oid = oidCertBag then
+    let (_, cb, _) ← opt (tlv b.value)
+    let cc ← opt (children cb)
     match cc with
     | [(0x06, ct), (0xa0, w2)] =>
-      if ct ≠ oidX509Cert then none else
-      let (t, cert, _) ← tlv w2
-      if t ≠ 0x04 then none else
-      pure ⟨"CERTIFICATE", cert, fr, lk⟩
-    | _ => none
-  else if oid = oidKeyBag8 then
-    let (_, epki, _) ← tlv wrapped
-    let ec ← children epki
+      if ct ≠ oidX509Cert then .error .notImpl else
+      let (t, cert, _) ← opt (tlv w2)
+      if t ≠ 0x04 then .error .other else
+      pure (some ⟨"CERTIFICATE", cert, true, none, none, none⟩)
+    | _ => .error .other
+  else if b.oid = oidKeyBag8 then
+    let (_, epki, _) ← opt (tlv b.value)
+    let ec ← opt (children epki)
     match ec with
     | [(0x30, alg), (0x04, data)] =>
-      let p8 ← pbDecryptFull alg data password
-      let k ← keyFromPkcs8 p8
-      pure ⟨"PRIVATE-KEY", k, fr, lk⟩
-    | _ => none
-  else none
+      match pbDecryptFull alg data password with
+      | .error _ => .error .other
+      | .ok p8 =>
+        let (k, pemOk) ← opt (keyFromPkcs8 p8)
+        pure (some ⟨"PRIVATE-KEY", k, pemOk, none, none, none⟩)
+    | _ => .error .other
+  else pure none
 
-/-- one ContentInfo of the AuthenticatedSafe → its SafeBags -/
-def readSafe (ci : Bytes) (password : Bytes) : Option (List BagOut) := do
-  let cc ← children ci
+/-- one ContentInfo of the AuthenticatedSafe → its SafeBags (undecoded) -/
+def readSafe (ci : Bytes) (password : Bytes) : R (List RawBag) := do
+  let cc ← opt (children ci)
   let (oid, wrapped) ← match cc with
-    | [(0x06, oid), (0xa0, w)] => some (oid, w)
-    | _ => none
+    | [(0x06, oid), (0xa0, w)] => pure (oid, w)
+    | _ => .error .other
   let safeContents ← (if oid = oidData then do
-      let (t, d, _) ← tlv wrapped
-      if t ≠ 0x04 then none else some d
+      let (t, d, _) ← opt (tlv wrapped)
+      if t ≠ 0x04 then .error .other else pure d
     else if oid = oidEncryptedData then do
-      let (_, ed, _) ← tlv wrapped
-      let ec ← children ed
+      let (_, ed, _) ← opt (tlv wrapped)
+      let ec ← opt (children ed)
       match ec with
-      | [(0x02, [0]), (0x30, eci)] =>
-        let ecc ← children eci
+      | [(0x02, ver), (0x30, eci)] =>
+        if derInt ver ≠ 0 then .error .notImpl else
+        let ecc ← opt (children eci)
         match ecc with
         | [(0x06, _), (0x30, alg), (0x80, data)] => pbDecryptFull alg data password
-        | _ => none
-      | _ => none
-    else none)
-  let (t, bagsBody, rest) ← tlv safeContents
-  if t ≠ 0x30 ∨ !rest.isEmpty then none
-  let bags ← children bagsBody
-  bags.mapM (fun b => readBag b.2 password)
+        | _ => .error .other
+      | _ => .error .other
+    else .error .notImpl)
+  let (t, bagsBody, rest) ← opt (tlv safeContents)
+  if t ≠ 0x30 ∨ !rest.isEmpty then .error .other
+  let bags ← opt (children bagsBody)
+  bags.mapM (fun b => opt (rawBag b.2))
 
-/-- all bags of a PFX whose MAC verified with `password` (the BMP bytes used from then on) -/
-def readBags (file : Bytes) (password : Bytes) : Option (List BagOut) := do
-  let m ← parsePfxMac file
-  let (t, asBody, rest) ← tlv m.content
-  if t ≠ 0x30 ∨ !rest.isEmpty then none
-  let cis ← children asBody
-  if cis.length ≠ 2 then none
+/-- getSafeContents after the MAC: exactly two ContentInfos, their bags concatenated -/
+def readBags (file : Bytes) (password : Bytes) : R (List RawBag) := do
+  let m ← opt (parsePfxMac file)
+  let (t, asBody, rest) ← opt (tlv m.content)
+  if t ≠ 0x30 ∨ !rest.isEmpty then .error .other
+  let cis ← opt (children asBody)
+  if cis.length ≠ 2 then .error .notImpl
   let bagss ← cis.mapM (fun ci => readSafe ci.2 password)
   pure bagss.flatten
 
@@ -190,33 +234,57 @@ def showRunes' (rs : Option (List Nat)) : String :=
   | some [] => "-"
   | some l => ",".intercalate (l.map toString)
 
-/-- the observable of `pfx` ops after a verified MAC -/
-def openedObservable (bags : List BagOut) (coarse : Bool) : String :=
-  let pem :=
-    if coarse then s!"blocks:{bags.length}"
-    else ";".intercalate (bags.map fun b =>
-      s!"{b.type}:{toHex (Prim.sha256 b.bytes)}:{showRunes' b.friendly}:{match b.localKeyId with | none => "-" | some l => toHex l}")
-  let certs := bags.filter (·.type == "CERTIFICATE")
-  let keys := bags.filter (·.type == "PRIVATE-KEY")
-  let decode :=
-    match bags.length == 2, certs, keys with
-    | true, [c], [k] => s!"ok key={toHex (Prim.sha256 k.bytes)} cert={toHex (Prim.sha256 c.bytes)}"
-    | _, _, _ => "err"
-  s!"decode={decode} pem={pem}"
+def showErr : RErr → String
+  | .password => "err-password"
+  | .notImpl => "err-notimpl"
+  | .decryption => "err-decryption"
+  | .other => "err"
 
-/-- Decode + ToPEM on a file and password runes, as far as this reader goes -/
+/-- pkcs12.Decode on the bags: exactly two bags; unknown bag types are skipped; one certificate and
+    one key must remain -/
+def decodeObs (bags : List RawBag) (password : Bytes) : String :=
+  if bags.length ≠ 2 then "err" else
+  match bags.mapM (fun b => decodeBag b password) with
+  | .error e => showErr e
+  | .ok outs =>
+    let known := outs.filterMap id
+    match known.filter (·.type == "CERTIFICATE"), known.filter (·.type == "PRIVATE-KEY") with
+    | [c], [k] => s!"ok key={toHex (Prim.sha256 k.bytes)} cert={toHex (Prim.sha256 c.bytes)}"
+    | _, _ => "err"
+
+/-- pkcs12.ToPEM on the bags, in order: attributes first (errors are plain), then the bag itself -/
+def pemObs (bags : List RawBag) (password : Bytes) (coarse : Bool) : String :=
+  let step (b : RawBag) : R String := do
+    let (fr, lk, csp) ← match b.attrs with
+      | none => pure (none, none, none)
+      | some a => opt (bagAttrs a)
+    match ← decodeBag b password with
+    | none => .error .other
+    | some o =>
+      if !o.pemOk then .error .other else
+      let cspS := match csp with | none => "" | some c => s!":csp={showRunes' (some c)}"
+      pure s!"{o.type}:{toHex (Prim.sha256 o.bytes)}:{showRunes' fr}:{match lk with | none => "-" | some l => toHex l}{cspS}"
+  match bags.mapM step with
+  | .error e => showErr e
+  | .ok blocks => if coarse then s!"blocks:{blocks.length}" else ";".intercalate blocks
+
+/-- Decode + ToPEM on a file and password runes -/
 def openFile (file : Bytes) (rs : List Nat) (coarse : Bool) : String :=
   match bmpString rs with
   | none => "decode=err pem=err-password"
   | some _ =>
+    match parsePfxMac file with
+    | none => "decode=err pem=err"      -- a shape the walk does not know: no MAC, wrong outer structure, …
+    | some _ =>
     match openPfx file rs with
     | some (.macOk pw) =>
       match readBags file pw with
-      | some bags => openedObservable bags coarse
-      | none => "model-cannot-parse"
+      | .ok bags => s!"decode={decodeObs bags pw} pem={pemObs bags pw coarse}"
+      | .error e => s!"decode={showErr e} pem={showErr e}"
     | some .incorrectPassword => "decode=err-password pem=err-password"
+    | some .notImplemented => "decode=err-notimpl pem=err-notimpl"
     | some .other => "decode=err pem=err"
-    | none => "model-cannot-parse"
+    | none => "decode=err pem=err"
 
 /-- the reader's verdict on a (possibly corrupted) copy of a corpus file whose true key / certificate
     digests are `key`, `cert`: `accept` = opens to exactly that key and certificate, `reject` = any
